@@ -367,7 +367,7 @@ def rule_p7(repo):
             'for seq in %s.items: self._check_proof_item(%s, seq, ...) unconditionally' % (prf, prf) if ok else
             'not every item of the proof is checked before check_proof returns', func.loc)
     rets = cfg.return_nodes()
-    ok = bool(rets) and all(r.ast.value is not None and path_of(r.ast.value) == prf + '.items[*].th' and
+    ok = bool(rets) and all(r.ast.value is not None and path_of(r.ast.value) == prf + '.items[-1].th' and
                             isinstance(r.ast.value.value, ast.Subscript) and
                             isinstance(r.ast.value.value.slice, ast.UnaryOp) and
                             getattr(r.ast.value.value.slice.operand, 'value', None) == 1 for r in rets)
